@@ -268,6 +268,26 @@ End C.
 """
 
 
+def normalise(params, stmts):
+    """local variables (names bound inside the function, parameters excluded) renamed v0, v1, ... in order of first binding: the comparison
+    below does not depend on what a local variable is called"""
+    tree = ast.parse("\n".join(stmts)) if stmts and isinstance(stmts[0], str) else ast.Module(body=list(stmts), type_ignores=[])
+    order = []
+
+    class Binder(ast.NodeVisitor):
+        def visit_Name(self, n):
+            if isinstance(n.ctx, ast.Store) and n.id not in params and n.id not in order:
+                order.append(n.id)
+    Binder().visit(tree)
+    ren = {n: f"v{i}" for i, n in enumerate(order)}
+
+    class Ren(ast.NodeTransformer):
+        def visit_Name(self, n):
+            return ast.copy_location(ast.Name(id=ren.get(n.id, n.id), ctx=n.ctx), n)
+    tree = Ren().visit(tree)
+    return [ast.unparse(s) for s in tree.body]
+
+
 def bodies(path, wanted):
     tree = ast.parse(open(path).read())
     out = {}
@@ -291,8 +311,8 @@ def translate(pkg):
         for name in sorted(wanted):
             if name not in got:
                 raise Unsupported(f"{mod}.{name} not found")
-            if got[name] != EXPECT[mod + "." + name]:
-                exp = EXPECT[mod + "." + name]
+            exp = EXPECT[mod + "." + name]
+            if got[name][0] != exp[0] or normalise(got[name][0], got[name][1]) != normalise(exp[0], exp[1]):
                 k = next((i for i, (a, b) in enumerate(zip(got[name][1], exp[1])) if a != b), min(len(got[name][1]), len(exp[1])))
                 what = got[name][1][k] if k < len(got[name][1]) else "(statement missing)"
                 raise Unsupported(f"{mod}.{name}: " + ("signature " + str(got[name][0]) if got[name][0] != exp[0] else "statement " + what[:100].replace(chr(10), " / ")))
